@@ -25,16 +25,25 @@ SHAPES = [
     {"foo": "dir", "foo/d": "dir", "foo/d/dd": "dir", "foo/d/dd/c": b"CCC", "foo/d/e": "dir"},
     {"foo": b"just a file"},
     {"foo": "dir", "foo/a b": b"sp", "foo/d": "dir", "foo/d/a": b"same name below"},
+    {"foo": "dir", "foo/foo": "dir", "foo/foo/foo": b"deep", "foo/x": b"X"},  # a directory that contains an entry of its own name
 ]
 
 
 class Peer:
     """model FTP peer: a tree, a working directory, and the replies aioftp's own server gives"""
 
-    def __init__(self, tree, cwd="/"):
+    def __init__(self, tree, cwd="/", legacy=False):
         self.tree = dict(tree)
         self.cwd = cwd
         self.log = []
+        self.legacy = legacy  # a server without MLST / MLSD: the client falls back to LIST and to listing the parent for stat
+
+    def ls_line(self, p):
+        t = self.tree.get(p, "dir" if p == "/" else None)
+        name = p.rsplit("/", 1)[1] if p != "/" else ""
+        if t == "dir":
+            return f"drwxr-xr-x   2 ftp ftp 4096 Jan  1  2020 {name}"
+        return f"-rw-r--r--   1 ftp ftp {len(t)} Jan  1  2020 {name}"
 
     def r(self, p):
         return M.resolve(self.cwd, str(p))
@@ -58,7 +67,7 @@ class Peer:
         verb, _, arg = command.partition(" ")
         verb = verb.upper()
         t = self.tree
-        if verb == "MLST":
+        if verb == "MLST" and not self.legacy:
             p = self.r(arg)
             if not M.exists(t, p):
                 return self.reply("550", ["path does not exists"], expected_codes)
@@ -109,7 +118,12 @@ class Peer:
             verb = verb.upper()
             p = peer.r(arg)
             t = peer.tree
-            if verb == "MLSD":
+            if verb == "LIST" and peer.legacy:
+                if not M.exists(t, p):
+                    raise aioftp.StatusCodeError(("1xx",), cli.Code("550"), ["path does not exists"])
+                kids = M.children(t, p) if M.is_dir(t, p) else []  # as aioftp's server: LIST of a file lists nothing
+                return Stream(lines=[(peer.ls_line(k) + "\r\n").encode("utf-8") for k in kids])
+            if verb == "MLSD" and not peer.legacy:
                 if not M.exists(t, p):
                     raise aioftp.StatusCodeError(("1xx",), cli.Code("550"), ["path does not exists"])
                 kids = M.children(t, p) if M.is_dir(t, p) else []
@@ -177,9 +191,9 @@ class Stream:
             await self.finish()
 
 
-def mk_client(remote_tree, cwd, local_tree):
+def mk_client(remote_tree, cwd, local_tree, legacy=False):
     c = aioftp.Client(path_io_factory=aioftp.MemoryPathIO)
-    peer = Peer(remote_tree, cwd)
+    peer = Peer(remote_tree, cwd, legacy)
     c.command = peer.command
     c.get_stream = peer.get_stream
     pio = c.path_io
@@ -221,15 +235,18 @@ def with_parents(tree, p):
 REMOTE0 = {"/c": "dir", "/keep": "dir", "/keep/me": b"untouched"}
 
 
-def upload(shape_i, dest_i, write_into, cwd_c):
+def upload(shape_i, dest_i, write_into, cwd_c, legacy=False):
     hb.KEY = ""
+    legacy = bool(legacy)
     shape = SHAPES[hb.conc(shape_i, 0, len(SHAPES) - 1)]
     dest = DESTS[hb.conc(dest_i, 0, len(DESTS) - 1)]
     cwd = "/c" if cwd_c else "/"
     local = {"/local": "dir"}
     for k, v in shape.items():
         local["/local/" + k] = v
-    c, peer = mk_client(REMOTE0, cwd, local)
+    if legacy and ".." in dest:
+        return True  # '..' inside a REMOTE path on a LIST-only server: stat falls back to looking '..' up in a listing, which no server lists (outside the claim)
+    c, peer = mk_client(REMOTE0, cwd, local, legacy)
     loop = hb.new_loop()
     try:
         loop.run_until_complete(c.upload("/local/foo", dest, write_into=write_into, block_size=2))
@@ -259,8 +276,9 @@ def upload(shape_i, dest_i, write_into, cwd_c):
     return True
 
 
-def download(shape_i, dest_i, write_into, cwd_c):
+def download(shape_i, dest_i, write_into, cwd_c, legacy=False):
     hb.KEY = ""
+    legacy = bool(legacy)
     shape = SHAPES[hb.conc(shape_i, 0, len(SHAPES) - 1)]
     dest = DESTS[hb.conc(dest_i, 0, len(DESTS) - 1)]
     if ".." in dest:
@@ -271,7 +289,7 @@ def download(shape_i, dest_i, write_into, cwd_c):
         remote["/c/src/" + k] = v
     remote["/c/src"] = "dir"
     local0 = {"/w": "dir", "/w/keep": b"local"}
-    c, peer = mk_client(remote, cwd, local0)
+    c, peer = mk_client(remote, cwd, local0, legacy)
     c.path_io.cwd = pathlib.PurePosixPath("/w")
     loop = hb.new_loop()
     src = "src/foo" if cwd_c else "/c/src/foo"
@@ -304,14 +322,15 @@ def download(shape_i, dest_i, write_into, cwd_c):
     return True
 
 
-def list_recursive(shape_i, cwd_c, arg_i):
+def list_recursive(shape_i, cwd_c, arg_i, legacy=False):
     hb.KEY = ""
+    legacy = bool(legacy)
     shape = SHAPES[hb.conc(shape_i, 0, len(SHAPES) - 1)]
     cwd = "/c" if cwd_c else "/"
     remote = dict(REMOTE0)
     for k, v in shape.items():
         remote["/c/" + k] = v
-    c, peer = mk_client(remote, cwd, {})
+    c, peer = mk_client(remote, cwd, {}, legacy)
     loop = hb.new_loop()
     arg = (["foo", "/c/foo", "./foo/"] if cwd_c else ["c/foo", "/c/foo", "c//foo"])[hb.conc(arg_i, 0, 2)]
     res = loop.run_until_complete(c.list(arg, recursive=True)._to_list())
@@ -329,8 +348,9 @@ def list_recursive(shape_i, cwd_c, arg_i):
     return True
 
 
-def remove(shape_i, cwd_c, arg_i):
+def remove(shape_i, cwd_c, arg_i, legacy=False):
     hb.KEY = ""
+    legacy = bool(legacy)
     shape = SHAPES[hb.conc(shape_i, 0, len(SHAPES) - 1)]
     cwd = "/c" if cwd_c else "/"
     remote = dict(REMOTE0)
@@ -338,7 +358,7 @@ def remove(shape_i, cwd_c, arg_i):
         remote["/c/" + k] = v
     remote["/c/foo2"] = "dir"
     remote["/c/foo2/sibling"] = b"stays"
-    c, peer = mk_client(remote, cwd, {})
+    c, peer = mk_client(remote, cwd, {}, legacy)
     loop = hb.new_loop()
     arg = (["foo", "/c/foo", "./foo"] if cwd_c else ["c/foo", "/c/foo", "c//foo"])[hb.conc(arg_i, 0, 2)]
     loop.run_until_complete(c.remove(arg))
